@@ -339,24 +339,61 @@ def quiet():
     return contextlib.redirect_stdout(io.StringIO())
 
 
-def build_geometry(case, m):
-    import numpy as np
-    from mulgrids import mulgrid
-    by_origin = case.get('route', 'translate') == 'origin'
-    shift = SHIFTS[case['shift']]
-    if by_origin:      # the position given to rectangular() itself, rotation about that corner
-        geo = mulgrid().rectangular(m.dx, m.dy, m.dz, convention=case['cs'], atmos_type=case['atm'], origin=list(shift))
-    else:
-        geo = mulgrid().rectangular(m.dx, m.dy, m.dz, convention=case['cs'], atmos_type=case['atm'])
-    if case.get('avol', 'd') != 'd':
-        geo.atmosphere_volume = AVOL[case['avol']]
+_ALIVE = []
+PRIMERS = ('flat', 'above', 'stair', 'slope', 'mid', 'down', 'same')
+
+
+def primer_surface(name, case):
+    nx, ny, nz = case['nx'], case['ny'], case['nz']
+    n = nx * ny
+    if name == 'flat':
+        return [TOP] * n
+    if name == 'above':
+        return [ABOVE] * n
+    if name == 'stair':
+        return stair(nx, ny, nz)
+    if name == 'slope':
+        return slope(nx, ny, nz)
+    if name == 'mid':
+        return [MID] * (n - 1) + [TOP]
+    if name == 'down':
+        return [DOWN] * (n - 1) + [TOP]
+    return case['surf']
+
+
+def set_surfaces(geo, surf):
     for k, col in enumerate(geo.columnlist):
-        L, q = case['surf'][k]
+        L, q = surf[k]
         lay = geo.layerlist[L + 1]
         col.surface = lay.top if q == 4 else lay.bottom + 0.25 * q * (lay.top - lay.bottom)
         geo.set_column_num_layers(col)
     geo.setup_block_name_index()
     geo.setup_block_connection_name_index()
+
+
+def build_geometry(case, m):
+    """The generating geometry.  With a history ('hist' = [primer surface, stage]) the SAME geometry object has
+    been converted to a grid once before, with the primer surface (and the default atmosphere volume), either
+    after ('moved') or before ('unmoved') it was rotated and translated; then it got the surfaces of the case."""
+    import numpy as np
+    from mulgrids import mulgrid
+    from t2grids import t2grid
+    by_origin = case.get('route', 'translate') == 'origin'
+    shift = SHIFTS[case['shift']]
+    hist = case.get('hist')
+    if by_origin:      # the position given to rectangular() itself, rotation about that corner
+        geo = mulgrid().rectangular(m.dx, m.dy, m.dz, convention=case['cs'], atmos_type=case['atm'], origin=list(shift))
+    else:
+        geo = mulgrid().rectangular(m.dx, m.dy, m.dz, convention=case['cs'], atmos_type=case['atm'])
+    if hist:
+        set_surfaces(geo, primer_surface(hist[0], case))
+        if hist[1] == 'unmoved':
+            earlier = t2grid().fromgeo(geo)
+            set_surfaces(geo, case['surf'])
+    else:
+        set_surfaces(geo, case['surf'])
+    if not hist and case.get('avol', 'd') != 'd':
+        geo.atmosphere_volume = AVOL[case['avol']]
     if by_origin:
         geo.rotate(case['angle'], np.array(shift[:2]))
         geo.permeability_angle = -case['angle']
@@ -364,6 +401,13 @@ def build_geometry(case, m):
         geo.rotate(case['angle'], np.zeros(2))
         geo.permeability_angle = -case['angle']
         geo.translate(np.array(shift))
+    if hist:
+        if hist[1] == 'moved':
+            earlier = t2grid().fromgeo(geo)
+            set_surfaces(geo, case['surf'])
+        if case.get('avol', 'd') != 'd':
+            geo.atmosphere_volume = AVOL[case['avol']]
+        _ALIVE[:] = [earlier]               # the earlier grid stays alive next to the one under test
     return geo
 
 
@@ -419,6 +463,63 @@ def grid_summary(grid, skip=()):
         cons[frozenset((n0, n1))] = (int(c.direction), {n0: float(c.distance[0]), n1: float(c.distance[1])},
                                      float(c.area))
     return blocks, cons
+
+
+def _f(v):
+    return None if v is None else float(v)
+
+
+def _vec(v):
+    return None if v is None else tuple(float(x) for x in v)
+
+
+def grid_state(grid):
+    """Everything a user can see of a grid, in the order the grid keeps it (the observing operations - writing the
+    data file, rectgeo, fromgeo of rectgeo's result - must leave it exactly as it was)."""
+    blocks = tuple((b.name, _f(b.volume), _vec(b.centre), b.rocktype.name if b.rocktype is not None else None,
+                    bool(getattr(b, 'atmosphere', False)), tuple(sorted(b.connection_name)),
+                    _f(b.ahtx), _f(b.pmx), b.nseq, b.nadd)
+                   for b in grid.blocklist)
+    bdict = tuple(sorted((k, v.name) for k, v in grid.block.items()))
+    cons = tuple((c.block[0].name, c.block[1].name, int(c.direction), _vec(c.distance), _f(c.area), _f(c.dircos))
+                 for c in grid.connectionlist)
+    cdict = tuple(sorted((k, (v.block[0].name, v.block[1].name)) for k, v in grid.connection.items()))
+    rocks = tuple(r.name for r in grid.rocktypelist)
+    return (blocks, bdict, cons, cdict, rocks)
+
+
+def geo_state(geo):
+    """Everything a user can see of a geometry."""
+    return (geo.convention, geo.atmosphere_type, _f(geo.atmosphere_volume), _f(geo.permeability_angle),
+            tuple((l.name, _f(l.bottom), _f(l.top), _f(l.centre)) for l in geo.layerlist),
+            tuple((n.name, _vec(n.pos)) for n in geo.nodelist),
+            tuple((c.name, _vec(c.centre), _f(c.surface), int(c.num_layers), tuple(n.name for n in c.node))
+                  for c in geo.columnlist),
+            tuple(sorted(tuple(sorted(c.name for c in con.column)) for con in geo.connectionlist)),
+            tuple(geo.block_name_list), tuple(tuple(x) for x in geo.block_connection_name_list))
+
+
+def first_difference(a, b, tol=0.0, path=''):
+    """None when two states are the same (numbers to tol), else a short text naming the first difference."""
+    if isinstance(a, tuple) and isinstance(b, tuple):
+        if len(a) != len(b):
+            return '%s: %d items, before %d' % (path or 'state', len(b), len(a))
+        for k, (x, y) in enumerate(zip(a, b)):
+            d = first_difference(x, y, tol, '%s[%d]' % (path, k))
+            if d:
+                return d
+        return None
+    if isinstance(a, float) and isinstance(b, float):
+        if a == b or (a != a and b != b) or abs(a - b) <= tol * max(1.0, abs(a), abs(b)):
+            return None
+        return '%s: %r, before %r' % (path, b, a)
+    return None if a == b else '%s: %r, before %r' % (path, b, a)
+
+
+def unchanged(site, clause, what, before, after):
+    d = first_difference(before, after)
+    if d:
+        raise Fail(site, clause, '%s (%s)' % (what, d))
 
 
 def add_boundary(case, geo, grid, m):
@@ -518,6 +619,17 @@ def measure_rounding(grid, grid_f, mode=True):
     return dxy, dz, rel
 
 
+def rectgeo_observation(grid, kw, limit, site):
+    try:
+        with core.timelimit(limit):
+            g, bm = grid.rectgeo(**kw)
+    except core.CaseTimeout:
+        raise Fail(site, 'timeout', 'rectgeo did not return within %d s' % limit)
+    except Exception as e:
+        raise Fail(site, 'exception:' + type(e).__name__, 'rectgeo raised %r' % e)
+    return (geo_state(g), tuple(sorted(bm.items())))
+
+
 def evaluate(case):
     """Runs one case on the real code.  Returns None (holds) or (site, clause, what)."""
     import numpy as np
@@ -531,10 +643,16 @@ def evaluate(case):
             except Exception as e:
                 raise Fail('forward', 'exception:' + type(e).__name__, 'building the geometry raised %r' % e)
             check_forward(geo, m, (1e-12 if case['shift'] in FAR else 1e-9) * scale)
+            rep = bool(case.get('rep'))
+            if rep:
+                geo_before = geo_state(geo)
             try:
                 grid = t2grid().fromgeo(geo)
             except Exception as e:
                 raise Fail('fromgeo', 'exception:' + type(e).__name__, 'fromgeo of the generating geometry raised %r' % e)
+            if rep:
+                unchanged('side-effect:fromgeo', 'geometry-changed', 'fromgeo changed the geometry it converted',
+                          geo_before, geo_state(geo))
             orig_blocks, orig_cons = grid_summary(grid)
             colof = {}
             for name in orig_blocks:
@@ -559,16 +677,6 @@ def evaluate(case):
                 # far from the origin the comparison must not scale with the coordinates: doubles resolve 1e-9 m
                 # at 5.7e6 m, and a block is where it is to 1e-12 of its coordinates whatever they are
                 dxy, dz = 1e-12 * scale, 1e-12 * scale
-            if case['file']:
-                try:
-                    grid_f = through_file(grid, case['file'])
-                except Fail:
-                    raise
-                except Exception as e:
-                    raise Fail('datafile', 'exception:' + type(e).__name__, 'writing/re-reading the grid raised %r' % e)
-                fx, fz, fr = measure_rounding(grid, grid_f, case['file'])
-                dxy, dz, rel = dxy + fx, dz + fz, rel + fr
-                grid = grid_f
             kw = {'atmos_type': case['atm'], 'convention': case['cr']}
             if case['ob'] == 'name':
                 kw['origin_block'] = origin_name
@@ -576,7 +684,28 @@ def evaluate(case):
                 kw['remove_inactive'] = True
             if case.get('snap', 'default') != 'default':
                 kw['layer_snap'] = {'zero': 0.0, 'negative': -1.0}[case['snap']]
-            limit = 120 if (case['nx'], case['ny'], case['nz']) == BIG else 20
+            limit = 120 if case['nx'] * case['ny'] >= 100 else 20
+            grid_mem = grid
+            if rep:
+                # the observing operations must not change the grid they observe: the in-memory grid is looked at
+                # before anything has observed it, and rectgeo is applied to it a first time
+                mem_before = grid_state(grid_mem)
+                first = rectgeo_observation(grid_mem, kw, limit, 'rectgeo')
+                unchanged('side-effect:rectgeo', 'grid-changed', 'rectgeo changed the grid it was applied to',
+                          mem_before, grid_state(grid_mem))
+            if case['file']:
+                try:
+                    grid_f = through_file(grid, case['file'])
+                except Fail:
+                    raise
+                except Exception as e:
+                    raise Fail('datafile', 'exception:' + type(e).__name__, 'writing/re-reading the grid raised %r' % e)
+                if rep:
+                    unchanged('side-effect:write', 'grid-changed', 'writing the data file changed the grid in memory',
+                              mem_before, grid_state(grid_mem))
+                fx, fz, fr = measure_rounding(grid, grid_f, case['file'])
+                dxy, dz, rel = dxy + fx, dz + fz, rel + fr
+                grid = grid_f
             try:
                 with core.timelimit(limit):
                     geo2, bmap = grid.rectgeo(**kw)
@@ -588,11 +717,28 @@ def evaluate(case):
             try:
                 # the atmosphere volume is the caller's knowledge, like the atmosphere type
                 geo2.atmosphere_volume = geo.atmosphere_volume
+                if rep:
+                    args_before = (geo_state(geo2), tuple(sorted(bmap.items())))
+                    seen_before = grid_state(grid)
                 grid2 = t2grid().fromgeo(geo2, bmap)
             except Exception as e:
                 raise Fail('fromgeo(geo2,blockmap)', 'exception:' + type(e).__name__,
                            'fromgeo of the reconstructed geometry with the block map raised %r' % e)
             check_grid(grid2, orig_blocks, orig_cons, colof, m, dxy, dz, rel)
+            if rep:
+                unchanged('side-effect:fromgeo(geo2,blockmap)', 'arguments-changed',
+                          'fromgeo changed the geometry or the block map it was given',
+                          args_before, (geo_state(geo2), tuple(sorted(bmap.items()))))
+                unchanged('side-effect:fromgeo(geo2,blockmap)', 'grid-changed',
+                          'regenerating the grid changed the grid rectgeo was applied to', seen_before, grid_state(grid))
+                unchanged('side-effect:pipeline', 'grid-changed', 'the grid in memory is not what it was before it was '
+                          'written / reverse-engineered / regenerated', mem_before, grid_state(grid_mem))
+                # repeatability: rectgeo on the ORIGINAL in-memory grid gives what it gave before the grid was observed
+                second = rectgeo_observation(grid_mem, kw, limit, 'second-call:rectgeo')
+                d = first_difference(first, second, 1e-9)
+                if d:
+                    raise Fail('second-call:rectgeo', 'result-differs', 'rectgeo applied again to the grid in memory, after it '
+                               'was written / reverse-engineered / regenerated, gives another result (%s)' % d)
     except Fail as f:
         return (f.site, f.clause, f.what)
     return None
